@@ -29,6 +29,7 @@ func main() {
 	replay := flag.String("replay", "", "replay file: re-decide the obligations listed there")
 	list := flag.Bool("list", false, "list rules")
 	dumpEmit := flag.Bool("dump-emit", false, "print the emission traces of the emitter functions and exit")
+	dumpSigs := flag.Bool("dump-sigs", false, "print the signature table of the module's functions (used to regenerate anchors_table.go) and exit")
 	verbose := flag.Bool("v", false, "print every obligation")
 	flag.Parse()
 
@@ -61,7 +62,7 @@ func main() {
 		*prop = doc.Property
 		*verbose = true
 	}
-	if *prop == "" && !*dumpEmit {
+	if *prop == "" && !*dumpEmit && !*dumpSigs {
 		fmt.Println("usage: wirecheck -property Cnn [-tier quick|thorough]")
 		os.Exit(2)
 	}
@@ -79,6 +80,12 @@ func main() {
 			fmt.Printf("VIOLATION property=%s replay=%s/replay/%s.json\n", p, *evdir, p)
 		}
 		os.Exit(1)
+	}
+	if *dumpSigs {
+		for _, fi := range c.all {
+			fmt.Printf("\t{%q, %q, %q},\n", fi.Pkg.PkgPath, fi.Name, sigKey(fi.Obj))
+		}
+		return
 	}
 	// discovery pass: which functions do the rules ask for by name? Those stay
 	// anchors; every other single-call-site helper is linked into its caller.
